@@ -3,7 +3,7 @@
     Exact arithmetic throughout: rounding and re-association of the floating-point Reduce are outside. *)
 From Coq Require Import ZArith List Lia Field.
 Import ListNotations.
-From Coq Require Import QArith Qround Floats.
+From Coq Require Import QArith Qround PrimFloat SpecFloat FloatOps.
 From PGV Require Import Blocks Sums Diagnostics TransposeExec DiagnosticsLink DiagnosticsSlotQ.
 Close Scope Q_scope.
 
